@@ -130,8 +130,11 @@ def visit(visitor, obj, attr, glyphs):
 
         if g.isComposite():
             for component in g.components:
-                component.x = visitor.scale(component.x)
-                component.y = visitor.scale(component.y)
+                # Components attached by point matching (ARGS_ARE_XY_VALUES
+                # not set) have point numbers instead of an x/y offset.
+                if hasattr(component, "x"):
+                    component.x = visitor.scale(component.x)
+                    component.y = visitor.scale(component.y)
             continue
 
         if hasattr(g, "coordinates"):
